@@ -15,6 +15,8 @@ from . import mc, tlc
 from .c13 import execute, judge
 from .common import MachineryFailure, Result, seed
 
+PREFIXED = ('Inflation Rate During Construction, 0.08\nReservoir Volume Option, 3\nReservoir Volume, 1.5e9\n'
+            'Well Drilling and Completion Capital Cost Adjustment Factor, 1.4\nInjection Well Drilling and Completion Capital Cost, 3.5\n')
 CLAUSES = ('C14_', 'C13_rows', 'C13_row_not_dropped', 'C13_iterations_all_started')  # a failing iteration must not stop others from running
 
 
@@ -28,7 +30,10 @@ def plan(tier: str):
             ('hip_ra_x', mc.HIP_BASE, [('Reservoir Porosity', 'uniform', 5.0, 120.0, None)] + mc.HIP_INPUTS[:1], mc.HIP_OUTPUTS, 30, 4),
             # many iterations per worker with failing ones in between (batching of tasks must not couple their fates)
             ('hip_ra_x', mc.HIP_BASE, [('Reservoir Porosity', 'uniform', 5.0, 140.0, None)] + mc.HIP_INPUTS[:1], mc.HIP_OUTPUTS, 64, 2),
-            ('geophires', mc.GEO_BASE, [('Utilization Factor', 'uniform', 0.7, 1.2, None)], mc.GEO_OUTPUTS[:1], 36, 1)]
+            ('geophires', mc.GEO_BASE, [('Utilization Factor', 'uniform', 0.7, 1.2, None)], mc.GEO_OUTPUTS[:1], 36, 1),
+            # sampled names that are prefixes of other parameters the base sets to non-default values: only the sampled ones may change
+            ('geophires', mc.GEO_BASE + PREFIXED, [('Inflation Rate', 'uniform', 0.01, 0.04, None), ('Reservoir Volume', 'normal', 1.5e9, 1.0e8, None),
+                                                   ('Well Drilling and Completion Capital Cost', 'uniform', 4.0, 6.0, None)], mc.GEO_OUTPUTS, 8, 2)]
     if tier == 'thorough':
         for w in (1, 2, 4, 16):
             runs.append(('geophires', mc.GEO_BASE, mc.GEO_INPUTS, mc.GEO_OUTPUTS, rng.choice([40, 80]), w))
